@@ -6,11 +6,6 @@ import (
 
 	"github.com/parquet-go/parquet-go"
 	"github.com/parquet-go/parquet-go/compress"
-	"github.com/parquet-go/parquet-go/compress/brotli"
-	"github.com/parquet-go/parquet-go/compress/gzip"
-	"github.com/parquet-go/parquet-go/compress/lz4"
-	"github.com/parquet-go/parquet-go/compress/snappy"
-	"github.com/parquet-go/parquet-go/compress/zstd"
 	"github.com/parquet-go/parquet-go/encoding"
 
 	"verif/engine"
@@ -33,7 +28,8 @@ type wcfg struct {
 
 var (
 	codecNames = []string{"none", "snappy", "gzip", "zstd", "lz4raw", "brotli"}
-	codecs     = []compress.Codec{nil, &snappy.Codec{}, &gzip.Codec{}, &zstd.Codec{}, &lz4.Codec{}, &brotli.Codec{}}
+	// the codecs as the library configures them (a zero gzip.Codec is level 0 = stored)
+	codecs = []compress.Codec{nil, &parquet.Snappy, &parquet.Gzip, &parquet.Zstd, &parquet.Lz4Raw, &parquet.Brotli}
 )
 
 // encOption returns a DefaultEncodingFor set, one for every kind the
@@ -170,7 +166,7 @@ func chooseWriterOptions(x *engine.X, schema *parquet.Schema, tmpdir string) *wc
 		case 1:
 			add("bloom", parquet.BloomFilters(fs...))
 		case 2:
-			add("bloom+gzip", parquet.BloomFilters(fs...), parquet.BloomFilterCompression(&gzip.Codec{}))
+			add("bloom+gzip", parquet.BloomFilters(fs...), parquet.BloomFilterCompression(&parquet.Gzip))
 		case 3:
 			add("bloom+deferred", parquet.BloomFilters(fs...), parquet.DeferBloomFiltersWithBuffers(parquet.NewBufferPool()))
 		}
